@@ -5,6 +5,8 @@
 package main
 
 import (
+	"github.com/pingcap/kvproto/pkg/metapb"
+	"github.com/gogo/protobuf/proto"
 	"context"
 	"fmt"
 	"sort"
@@ -311,7 +313,14 @@ func scenarios() []*explore.Scenario {
 // AskBatchSplit) run concurrently; every id handed out by any of them must be distinct and
 // not above the stored window.
 func handlers(name string, pre int, tiers string) *explore.Scenario {
-	return &explore.Scenario{Name: name, MaxPre: pre, Tiers: tiers,
+	return handlersF(name, pre, 0, tiers)
+}
+
+// handlersF: dev > 0 = storage writes may fail (at most dev of them) while the handlers run; the
+// split request then names three peers, so that a failing window extension can fall between
+// two of the ids one request hands out.
+func handlersF(name string, pre, dev int, tiers string) *explore.Scenario {
+	return &explore.Scenario{Name: name, MaxPre: pre, MaxDev: dev, Tiers: tiers,
 		Opts: sched.Options{Kinds: uint32(1<<sched.KLock | 1<<sched.KEtcd | 1<<sched.KUser | 1<<sched.KWait | 1<<sched.KStart | 1<<sched.KYield)},
 		Setup: func() *explore.Instance {
 			vclock.Enable(vclock.Epoch)
@@ -354,6 +363,23 @@ func handlers(name string, pre int, tiers string) *explore.Scenario {
 				}
 			}
 			region := boot.Region
+			splitReq := region
+			if dev > 0 {
+				splitReq = proto.Clone(region).(*metapb.Region)
+				splitReq.Peers = append(splitReq.Peers, &metapb.Peer{Id: 4, StoreId: 2}, &metapb.Peer{Id: 5, StoreId: 3})
+				// two ids of the window are left: the split's four ids straddle the window end
+				for {
+					r, err := s.AllocID(context.Background(), &pdpb.AllocIDRequest{Header: s.Header()})
+					if err != nil {
+						panic(err)
+					}
+					rec("set-up", r.GetId())
+					if r.GetId()%1000 == 998 {
+						break
+					}
+				}
+				st.FaultWrites = true
+			}
 			return &explore.Instance{Names: []string{"alloc", "batch-split", "split", "drain"}, Threads: []func(){
 				func() {
 					for i := 0; i < 2; i++ {
@@ -372,13 +398,16 @@ func handlers(name string, pre int, tiers string) *explore.Scenario {
 					}
 				},
 				func() {
-					r, err := s.AskSplit(context.Background(), &pdpb.AskSplitRequest{Header: s.Header(), Region: region})
+					r, err := s.AskSplit(context.Background(), &pdpb.AskSplitRequest{Header: s.Header(), Region: splitReq})
 					if err == nil && r.GetHeader().GetError() == nil {
 						rec("AskSplit", r.NewRegionId)
 						rec("AskSplit", r.NewPeerIds...)
 					}
 				},
 				func() {
+					if dev > 0 {
+						return
+					}
 					// use up the rest of the window so that a rebase happens while the others run
 					sched.Atomic(func() {
 						for i := 0; i < 990; i++ {
@@ -390,8 +419,12 @@ func handlers(name string, pre int, tiers string) *explore.Scenario {
 				},
 			}, Check: func(r *sched.Run) (string, *explore.Violation) {
 				defer s.Close()
+				st.FaultWrites = false
 				seen := map[uint64]string{}
 				for _, g := range ids {
+					if g.id == 0 {
+						return "", &explore.Violation{Key: "zero-id", Msg: fmt.Sprintf("%s handed out id 0, which no allocation ever returns", g.who)}
+					}
 					if o, dup := seen[g.id]; dup {
 						return "", &explore.Violation{Key: "duplicate-id", Msg: fmt.Sprintf("id %d handed out twice: by %s and by %s", g.id, o, g.who)}
 					}
@@ -409,7 +442,7 @@ func main() {
 	defer srvh.Cleanup()
 	explore.Main(&explore.Config{
 		Property:  "C04",
-		Scenarios: append(scenarios(), handlers("handlers", 2, "quick"), handlers("handlers@3", 3, "thorough")),
+		Scenarios: append(scenarios(), handlers("handlers", 2, "quick"), handlersF("handlers/storage-faults", 1, 1, "quick"), handlers("handlers@3", 3, "thorough"), handlersF("handlers/storage-faults@2", 2, 2, "thorough")),
 		Rule:      "every schedule (preemption-bounded) and fault answer (deviation-bounded) of the thread scripts; an outcome is the multiset of (member,id) returned plus the final stored window",
 		Assumptions: []string{
 			"fake etcd is conformance-checked against embedded etcd (engine/fakeetcd/conformance)",
